@@ -48,7 +48,24 @@ func TestC03(t *testing.T) {
 			r.Case("top "+vocab.Dump(tp.v), true, "toplevel "+tp.name)
 			reportAll(r, "toplevel", tp.name, ds, map[string]interface{}{"value": vocab.Dump(tp.v)})
 		}
-		r.Cells(len(tops), len(tops))
+		// a value that says nothing but its type, of every struct type, through all three entry pairs
+		n := len(tops)
+		for _, st := range vocab.StructTypes {
+			p := reflect.New(st)
+			p.Elem().FieldByName("Type").SetString(string(vocab.DefaultType[st.Name()]))
+			x := p.Interface().(ap.Item)
+			for _, c := range []codec{codecGobPkg, codecGobTyped, codecBinary} {
+				cell := "typeonly " + st.Name() + " " + c.name
+				if !r.WantCell(cell) {
+					continue
+				}
+				n++
+				ds, _ := roundTrip(c, x, "gob-rt", st.Name()+".Type")
+				r.Case("top "+cell, true, "toplevel typeonly")
+				reportAll(r, "toplevel", cell, ds, map[string]interface{}{"value": vocab.Dump(x), "entry": c.name})
+			}
+		}
+		r.Cells(n, n)
 	}
 	// ---- helper types: every non-struct-vocabulary type with its own GobEncode/GobDecode (and MarshalBinary/UnmarshalBinary) pair,
 	// through the method pair(s) and through encoding/gob's Encoder/Decoder (how a value is stored) ----
